@@ -656,6 +656,7 @@ def _final_snapshot(w: World):
             results.append({
                 'bus': r.eventbus_name, 'h': hdesc, 'status': r.status,
                 'err': type(err).__name__ if err is not None else None, 'err_ident': ident,
+                'err_msg': _san(err, 40) if err is not None else None,
                 'children': tuple(w.names.get(c.event_id, '?') for c in r.event_children),
                 'result': (('event:' + w.names.get(r.result.event_id, '?')) if isinstance(r.result, BaseEvent) else repr(r.result)[:40]),
             })
